@@ -12,8 +12,8 @@ namespace Glom.C20
 
 /-- the shared-state invariant: every cached entry equals a fresh parse / a fresh lookup -/
 def Inv (reg : Reg) (sh : Sh) : Prop :=
-  (∀ t p, dlookup t sh.pathCache = some p → p = create t) ∧
-  (∀ key h, dlookup key sh.typeCache = some h → reg key = some h)
+  (∀ e ∈ sh.pathCache, e.2 = create e.1) ∧
+  (∀ e ∈ sh.typeCache, reg e.1 = some e.2)
 
 /-- what was observed of `n` calls run under one schedule -/
 structure Obs where
@@ -27,6 +27,20 @@ structure Obs where
 def checkC20 (alone : List Out) (o : Obs) : Bool :=
   !o.deadlock && o.outs == alone &&
   o.pcache.all (fun e => e.2.1 == e.2.2) && o.tcache.all (fun e => e.2.1 == e.2.2)
+
+/-- the outcome of a thread that has finished -/
+def Prog.outcome? : Prog → Option Out
+  | .done o => some o
+  | _ => none
+
+def reprPath (p : PathV) : String := "Path(" ++ ", ".intercalate p ++ ")"
+
+/-- the observation of a model state whose calls have all finished -/
+def observe (reg : Reg) (s : Sys) : Obs :=
+  { outs := s.threads.filterMap Prog.outcome?
+    pcache := s.sh.pathCache.map fun e => (e.1, reprPath e.2, reprPath (create e.1))
+    tcache := s.sh.typeCache.map fun e => (e.1, e.2, (reg e.1).getD "False")
+    deadlock := s.threads.any fun p => match p with | .done _ => false | _ => true }
 
 /-! ### facts -/
 
